@@ -22,7 +22,7 @@
 //	                          `logger` (NewKeyedWithLogger / NewKeyedRefCountWithLogger with a discarding logrus logger)
 //	reset K [COND…] | restart K [COND…] | resetall [COND…] | restartall [COND…]
 //	                          with condition functions: `nil` (a nil function), `key=K`, `par=P` (data%2 == P)
-//	cancelroot                cancels the root context that is installed (logged first as `env cancelroot`): SyncKeys,
+//	cancelroot                (ignored when retry is configured) cancels the root context that is installed (logged first as `env cancelroot`): SyncKeys,
 //	                          ResetRoutine, RestartRoutine then treat it as no context, SetKey(start) starts with it
 //	clearctx                  ClearContext() (logged, and modelled, as setctx 0 norestart)
 //	optcheck                  direct checks of entry points that the model does not describe: a nil constructor
@@ -102,15 +102,24 @@ func (t tagger) Add(s string) {
 
 type scriptedBackoff struct {
 	n, pos int
+	// note logs the answer (called inside the exit bookkeeping, with the Keyed mutex held)
+	note func(armed bool)
 }
 
 func (b *scriptedBackoff) NextBackOff() time.Duration {
-	b.pos++
-	if b.pos > b.n {
+	if b.pos >= b.n {
+		if b.note != nil {
+			b.note(false)
+		}
 		return cbackoff.Stop
+	}
+	b.pos++
+	if b.note != nil {
+		b.note(true)
 	}
 	return D
 }
+
 func (b *scriptedBackoff) Reset() { b.pos = 0 }
 
 // api is the part of Keyed / KeyedRefCount the driver uses.
@@ -278,7 +287,12 @@ func exec(script []string, opt comp.Options) (res comp.Result) {
 		}))
 	} else if retry >= 0 {
 		n := retry
-		opts = append(opts, keyed.WithBackoff[int, int](func(int) cbackoff.BackOff { return &scriptedBackoff{n: n} }))
+		opts = append(opts, keyed.WithBackoff[int, int](func(key int) cbackoff.BackOff {
+			return &scriptedBackoff{n: n, note: func(armed bool) {
+				// what the exit bookkeeping was told: the retry timer is armed now, or the backoff said Stop
+				log.Add("env boff %d %s", key, map[bool]string{true: "armed", false: "stop"}[armed])
+			}}
+		}))
 	}
 	var a api
 	// exit callback that calls back into the same object (as a caller of its own)
@@ -673,6 +687,11 @@ func exec(script []string, opt comp.Options) (res comp.Result) {
 		case "cancelroot":
 			// the root context that is installed is cancelled while it is installed (no call is in progress)
 			if installed == 0 || hung.Load() {
+				continue
+			}
+			if retry >= 0 || fresh {
+				// with a cancelled context installed a routine fails the moment it is started; with retry configured
+				// it would be retried several times within one advance, which the epochs cannot describe
 				continue
 			}
 			if !logIdle("env cancelroot") {
@@ -1172,6 +1191,32 @@ func gen(rng *rand.Rand, tier string) []string {
 		if t := rng.Intn(100); t < 9 {
 			k := key()
 			switch {
+			case retry > 0 && t < 4:
+				// a retry is pending; the context is cleared, or a reset / restart whose condition functions do not
+				// match leaves the routine alone, inside the backoff window
+				if rc {
+					out = append(out, addref(k))
+				} else {
+					out = append(out, fmt.Sprintf("setkey %d start", k))
+				}
+				out = append(out, "settle", fmt.Sprintf("retk %d err", k), "settle")
+				switch rng.Intn(6) {
+				case 0:
+					out = append(out, "clearctx")
+				case 1:
+					out = append(out, "setctx 0 norestart")
+				case 2:
+					out = append(out, fmt.Sprintf("reset %d %s", k, []string{"nil", "key=9", "nil key=8"}[rng.Intn(3)]))
+				case 3:
+					out = append(out, "resetall "+[]string{"nil", "key=9"}[rng.Intn(2)])
+				case 4:
+					out = append(out, fmt.Sprintf("restart %d %s", k, []string{"nil", "key=9"}[rng.Intn(2)]))
+				default:
+					out = append(out, "restartall "+[]string{"nil", "key=9 nil"}[rng.Intn(2)])
+				}
+				out = append(out, "advance", "probeall", "getkeys")
+				inBurst = 2
+				continue
 			case fresh && t < 5:
 				// a key that is new (or reset) in this epoch fails in it: its own backoff has not run out
 				if rc {
@@ -1326,15 +1371,24 @@ func init() {
 	comp.Register(&comp.Component{
 		Name: "keyed", Model: "keyed", Gen: gen, Exec: exec,
 		Corpus: [][]string{
+			// C07-d3: the context is cleared while a retry is pending: nothing is started again (both ways to clear,
+			// both kinds of object)
+			{"config plain nodelay retry 50", "setctx 1 norestart", "setkey 1 start", "settle", "retk 1 err", "settle", "clearctx", "advance", "probeall", "getkeys", "setctx 1 norestart", "advance", "probeall"},
+			{"config rc nodelay retry 2", "setctx 1 norestart", "addref 1", "settle", "retk 1 err", "settle", "setctx 0 norestart", "advance", "probeall", "getkeys", "advance"},
+			{"config rc delay retry 50", "setctx 2 norestart", "addref 2", "settle", "retk 2 err", "settle", "clearctx", "advance", "probeall", "advance", "getkeysdata"},
+			// C07-d2: a reset / restart whose condition functions do not match does not touch a pending retry
+			{"config plain nodelay retry 50", "setctx 1 norestart", "setkey 1 start", "settle", "retk 1 err", "settle", "reset 1 nil", "reset 1 key=2", "advance", "probeall", "getkeysdata"},
+			{"config plain delay retry 2", "setctx 1 norestart", "setkey 1 start", "setkey 2 start", "settle", "retk 2 err", "settle", "resetall key=9", "restartall nil", "restart 2 key=1", "advance", "probeall", "getkeysdata"},
+			{"config rc nodelay retry 50", "setctx 1 norestart", "addref 1", "settle", "retk 1 err", "settle", "resetall nil", "reset 1 par=0", "advance", "probeall", "getkeysdata"},
 			// C07-s3/b3: the retry timer of a record that ResetRoutine has replaced fires and must do nothing
 			{"config plain nodelay retry 50", "setctx 1 norestart", "setkey 1 start", "settle", "retk 1 err", "settle", "reset 1", "advance", "getkeysdata", "probeall", "retk 1 ok", "advance", "getkeysdata"},
 			{"config plain delay retry 2", "setctx 1 norestart", "setkey 1 start", "setkey 2 start", "settle", "retk 2 err", "settle", "resetall", "advance", "probeall", "retk 2 err", "advance", "getkeysdata"},
 			// the root context is cancelled while installed: SyncKeys / ResetRoutine / RestartRoutine forget it
 			// (nothing is started, RestartRoutine reports false); SetKey(start) starts with the cancelled context
 			{"config plain nodelay noretry", "setctx 1 norestart", "setkey 1 start", "settle", "cancelroot", "probeall", "restart 1", "setkey 2 start", "getkeys", "retk 1 cancel", "advance", "setctx 1 norestart", "advance", "probeall"},
-			{"config plain delay retry 1", "setctx 1 norestart", "setkey 1 start", "settle", "cancelroot", "setkey 2 start", "advance", "synckeys restart 1 2 3", "advance", "retk 1 cancel", "removekey 2", "getkeys", "advance", "getkeys", "setctx 2 restart", "advance", "probeall"},
+			{"config plain delay noretry", "setctx 1 norestart", "setkey 1 start", "settle", "cancelroot", "setkey 2 start", "advance", "synckeys restart 1 2 3", "advance", "retk 1 cancel", "removekey 2", "getkeys", "advance", "getkeys", "setctx 2 restart", "advance", "probeall"},
 			{"config rc nodelay noretry", "setctx 2 norestart", "addref 1", "settle", "cancelroot", "reset 1", "getkeysdata", "retk 1 cancel", "advance", "restartall", "setctx 2 norestart", "advance", "probeall"},
-			{"config plain nodelay fresh", "setctx 1 norestart", "cancelroot", "setkey 1 start", "advance", "advance", "resetall", "setkey 2 start", "advance", "getkeysdata"},
+			{"config plain nodelay noretry nilretry", "setctx 1 norestart", "cancelroot", "setkey 1 start", "advance", "advance", "resetall", "setkey 2 start", "advance", "getkeysdata"},
 			// condition functions of ResetRoutine / RestartRoutine / …All: no match (also a lone nil) = nothing happens
 			{"config plain nodelay noretry", "setctx 1 norestart", "setkey 1 start", "setkey 2 start", "settle", "reset 1 par=0", "reset 1 par=1", "reset 1 nil", "restart 2 key=1", "restart 2 nil key=2", "getkeysdata", "resetall par=0", "getkeysdata", "restartall key=2 nil", "resetall nil", "getkeysdata", "advance", "probeall"},
 			{"config rc delay noretry logger", "setctx 1 norestart", "addref 1", "addref 2", "reset 2 par=1 key=7", "getkeysdata", "restartall par=0", "resetall key=1 par=1", "getkeysdata", "advance", "clearctx", "restart 1 key=1", "probeall"},
